@@ -270,6 +270,41 @@ impl KeyMaterial {
     Ok(km)
   }
 
+  /// Overwrites the parse-side key bytes IN PLACE (same object, same addresses), as a caller rotating a key
+  /// held in a struct field would. Returns false when `public` has the wrong length for the protocol.
+  pub fn replace_public_in_place(&mut self, public: &[u8]) -> bool {
+    match self.proto {
+      p if p.is_local() => match arr::<32>(public) {
+        Some(a) => {
+          self.sym = Some(Key::<32>::from(a));
+          true
+        }
+        None => false,
+      },
+      Proto::V2P | Proto::V4P => match (arr::<32>(public), self.ed_pk.as_mut()) {
+        (Some(a), Some(slot)) => {
+          *slot = Key::<32>::from(a);
+          true
+        }
+        _ => false,
+      },
+      Proto::V3P => match (arr::<49>(public), self.p_pk.as_mut()) {
+        (Some(a), Some(slot)) => {
+          *slot = Key::<49>::from(a);
+          true
+        }
+        _ => false,
+      },
+      _ => match self.rsa_pk.as_mut() {
+        Some(v) if v.len() == public.len() => {
+          v.copy_from_slice(public);
+          true
+        }
+        _ => false,
+      },
+    }
+  }
+
   pub fn local(proto: Proto, key: &[u8; 32]) -> KeyMaterial {
     KeyMaterial::new(proto, Some(key), key).expect("32 bytes")
   }
